@@ -1,6 +1,7 @@
 package c08
 
 import (
+	"context"
 	"fmt"
 	"sync"
 	"testing"
@@ -25,6 +26,9 @@ type ClientCase struct {
 	Watchdog bool     `json:"watchdog"` // EnableWatchdog; the peer never answers the DWR, so one is pending while the messages arrive
 	Apps     []uint32 `json:"apps"`     // application id of each message of the peer (0 = base accounting ACR, 4 = CCR)
 	HoldMs   int      `json:"hold_ms"`  // how long each handler is held before it may return
+	// CancelCtx: the first handler replaces the connection's context by a cancellable one
+	// (SetContext) and the application cancels it while that handler is still running.
+	CancelCtx bool `json:"cancel_ctx,omitempty"`
 }
 
 func runClient(c ClientCase) *ev.Failure {
@@ -45,10 +49,18 @@ func runClient(c ClientCase) *ev.Failure {
 		release[i] = make(chan struct{})
 	}
 	entered := make(chan int, len(c.Apps))
-	machine.HandleFunc("ALL", func(_ diam.Conn, m *diam.Message) {
+	var cancel context.CancelFunc
+	machine.HandleFunc("ALL", func(cn diam.Conn, m *diam.Message) {
 		i := int(m.Header.HopByHopID) - 0x4000
 		if i < 0 || i >= len(c.Apps) {
 			return
+		}
+		if i == 0 && c.CancelCtx {
+			var ctx context.Context
+			mu.Lock()
+			ctx, cancel = context.WithCancel(cn.Context())
+			mu.Unlock()
+			cn.SetContext(ctx)
 		}
 		mu.Lock()
 		log = append(log, evt{"enter", i, time.Now()})
@@ -157,6 +169,14 @@ func runClient(c ClientCase) *ev.Failure {
 		case <-time.After(5 * time.Second):
 			return ev.Failf("client:dispatch-missing", "message %d of the peer was not handed to the handler within 5 s (watchdog request pending: %v)", i, c.Watchdog)
 		}
+		if i == 0 && c.CancelCtx {
+			mu.Lock()
+			cf := cancel
+			mu.Unlock()
+			if cf != nil {
+				cf()
+			}
+		}
 		// while this handler is held, the next one must not start
 		select {
 		case got := <-entered:
@@ -175,10 +195,11 @@ func runClient(c ClientCase) *ev.Failure {
 
 var clientProp = ev.Register(&ev.Prop[ClientCase]{
 	ID: "C08", Name: "client-connection",
-	Rule: "a connection made by sm.Client over an in-memory transport, watchdog off or on with a watchdog request the peer leaves unanswered; the peer sends 2..5 application requests (accounting of the base application, credit control of application 4) in one segment; every handler is held for 5..25 ms. " +
-		"Demanded: handlers start in arrival order and none starts before the previous one returned. non-trivial = the watchdog is waiting for an answer while the messages arrive",
+	Rule: "a connection made by sm.Client over an in-memory transport, watchdog off or on with a watchdog request the peer leaves unanswered; the peer sends 2..5 application requests (accounting of the base application, credit control of application 4) in one segment; every handler is held for 5..25 ms; 1 in 3 cases the first handler installs a cancellable context on the connection (SetContext) and the application cancels it while that handler runs. " +
+		"Demanded: handlers start in arrival order and none starts before the previous one returned. non-trivial = the watchdog is waiting for an answer while the messages arrive, or the context is cancelled",
 	Gen: func(t *rapid.T) ClientCase {
-		c := ClientCase{Watchdog: rapid.IntRange(0, 2).Draw(t, "watchdog") != 0, HoldMs: rapid.IntRange(5, 25).Draw(t, "hold-ms")}
+		c := ClientCase{Watchdog: rapid.IntRange(0, 2).Draw(t, "watchdog") != 0, HoldMs: rapid.IntRange(5, 25).Draw(t, "hold-ms"),
+			CancelCtx: rapid.IntRange(0, 2).Draw(t, "cancel-ctx") == 0}
 		n := rapid.IntRange(2, 5).Draw(t, "messages")
 		for i := 0; i < n; i++ {
 			c.Apps = append(c.Apps, rapid.SampledFrom([]uint32{0, 4, 4}).Draw(t, "app"))
@@ -187,10 +208,14 @@ var clientProp = ev.Register(&ev.Prop[ClientCase]{
 	},
 	Run: runClient,
 	Classify: func(c ClientCase) (bool, []string) {
-		if c.Watchdog {
-			return true, []string{"watchdog-request-pending"}
+		var cl []string
+		if c.CancelCtx {
+			cl = append(cl, "connection-context-cancelled-while-a-handler-runs")
 		}
-		return false, []string{"watchdog-off"}
+		if c.Watchdog {
+			return true, append(cl, "watchdog-request-pending")
+		}
+		return c.CancelCtx, append(cl, "watchdog-off")
 	},
 })
 
